@@ -73,6 +73,9 @@ func site(pc uintptr) string {
 
 // installKnobs wires the per-run knobs into the facades.
 func installKnobs(s *sim.Sim, k plan.Knobs) {
+	if k.OldTLSResume {
+		os.Setenv("GODEBUG", os.Getenv("GODEBUG")+",verifsimoldresume=1")
+	}
 	vbytes.Enabled = true
 	vbytes.GetFill = k.GetFill
 	vbytes.Quarantine = k.Quarantine
